@@ -54,8 +54,11 @@ static int init_line_being_generated;
 /* verification trace point: reports every line-number bookkeeping event of the compiler
  * kind: 'b' parser initialised, 's' switch_to_line (a=line, b=code address, c=current block),
  *       'i' __INIT placed (a=base address, b=size), 'e' final program (a=program size),
- *       'f' save_file_info (a=file id, b=lines), 'a' add_program_file (a=file id, s=name) */
+ *       'f' save_file_info (a=file id, b=lines), 'a' add_program_file (a=file id, s=name)
+ *       'r' like 's', but called by i_generate___INIT() while it generates the line numbers of the moved
+ *           initialiser code (a=line, b=code address in A_PROGRAM) */
 void (*verif_line_hook) (int kind, long a, long b, long c, const char *s) = 0;
+static int verif_init_replay = 0;
 #endif
 
 static int push_state;
@@ -370,7 +373,7 @@ static void switch_to_line (int line) {
 
 #ifdef NEOLITH_VERIF
   if (verif_line_hook)
-    verif_line_hook ('s', (long) line, (long) CURRENT_PROGRAM_SIZE, (long) current_block, 0);
+    verif_line_hook (verif_init_replay ? 'r' : 's', (long) line, (long) CURRENT_PROGRAM_SIZE, (long) current_block, 0);
 #endif
   if (current_block == A_INITIALIZER)
     {
@@ -1049,12 +1052,18 @@ i_generate___INIT ()
                     mem_block[A_INITIALIZER].current_size);
   /* generate the line numbers of the moved code: visit the start of every noted line like the
    * code generator would have done had the code been generated here */
+#ifdef NEOLITH_VERIF
+  verif_init_replay = 1;
+#endif
   for (i = 0; i < n; i++)
     {
       init_line_t *il = ((init_line_t *) mem_block[A_INIT_LINES].block) + i;
       prog_code = mem_block[A_PROGRAM].block + base + il->offset;
       switch_to_line (il->line);
     }
+#ifdef NEOLITH_VERIF
+  verif_init_replay = 0;
+#endif
   prog_code = mem_block[A_PROGRAM].block + mem_block[A_PROGRAM].current_size;
 }
 
